@@ -1408,6 +1408,11 @@ class Engine(object):
           self.rebuild_usercode()
         except Exception:
           log.error("Error rebuilding usercode after restoring schema: %s", traceback.format_exc())
+      # Columns deleted by the failed action stay deleted (a restored schema gets new Column
+      # objects), so destroy them too, or they linger in _back_references of other tables.
+      for col in self._gone_columns:
+        col.destroy()
+      self._gone_columns = []
       raise
 
     # If any columns got deleted, destroy them to clear _back_references in other tables, and to
